@@ -280,7 +280,9 @@ def datetime_get(string):
         return default_values("datetime")
 
     if isinstance(string, dt.datetime):
-        return dt.datetime.strptime(string.strftime(FORMAT_DATETIME), FORMAT_DATETIME)
+        # strftime does not write years before 1000 with four digits on every platform.
+        text = string.replace(tzinfo=None).isoformat(sep=" ", timespec="seconds")
+        return dt.datetime.strptime(text, FORMAT_DATETIME)
 
     return dt.datetime.strptime(string, FORMAT_DATETIME)
 
